@@ -144,6 +144,10 @@ class Check:
             "coverage": cov, "assumptions": self.assumptions, "wall_s": round(wall, 2),
             "violations": len({v["key"] for v in self.violations}),
         }
+        if self.states < 1 or self.transitions < 1:
+            # the run ended before TLC explored anything (the code under test crashed or did not return): no model-checking coverage to report
+            ev["level"] = "other"
+            cov["explanation"] = "this run ended before any state was explored: " + rule
         _write_evidence(self.pid, ev)
         print(f"[{self.pid}] tier={self.tier} seed={self.seed} states={self.states} transitions={self.transitions} "
               f"traces={self.traces} violations={ev['violations']} known={len(self.known_hits)} wall={wall:.1f}s")
